@@ -97,7 +97,7 @@ def _rtf_atoms(text):
             j = i
             while j < len(text) and text[j].isspace():
                 j += 1
-            out.append(["n", 0] if "\n" in text[i:j] else ["s", 0])
+            out.append(["s", 0])          # (which white space it is does not matter: see RtfStripDefs!Canon)
             i = j
         else:
             out.append(["c", {"\u00e9": 1, "{": 2}.get(text[i], 1000 + ord(text[i]) % 1000)])
